@@ -132,7 +132,11 @@ def parseGraph (j : Json) : Except String Graph := do
   let anyOutput := (jBoolField? j "trig_any_output").getD true
   let triggerUnpooled := (jBoolField? j "trig_unpooled").getD true
   let rowInsertMode := (jNatField? j "row_insert_mode").getD 0
-  return { icp, fcp, start, runahead, tasks, seqs, stopPoint, cfgStop, anyOutput, triggerUnpooled, rowInsertMode }
+  let fb (k : String) : Bool := (jBoolField? j k).getD false
+  return { icp, fcp, start, runahead, tasks, seqs, stopPoint, cfgStop, anyOutput, triggerUnpooled, rowInsertMode,
+           qotSkipsPrepped := fb "qot_skips_prepped", releaseQueueIfReady := fb "release_queue_if_ready",
+           rmFlushFirst := fb "rm_flush_first", rmFlushEach := fb "rm_flush_each",
+           rmEraseUnmatched := fb "rm_erase_unmatched" }
 
 def parseTaskId (s : String) : Except String (Int × String) :=
   match s.splitOn "/" with
